@@ -468,6 +468,8 @@ func (c *Ctx) nextMessageParams() {
 			rets := enumEval(f, statusQ, s)
 			okv := len(rets) > 0
 			var why []string
+			// a result accumulated in one variable and returned once: only the stores on this status' paths count
+			gStoreFilter, gStoreFilterFn = enumBlocks, f
 			for _, r := range rets {
 				if isFailureValue(f, retVal(r, 1), r.Block()) {
 					continue
@@ -502,6 +504,7 @@ func (c *Ctx) nextMessageParams() {
 					}
 				}
 			}
+			gStoreFilter, gStoreFilterFn = nil, nil
 			c.check(okv, R, fmt.Sprintf("%s.NextMessageParams for status %s", recv, s), f.Pos(), fmt.Sprintf("%d reachable returns", len(rets)), fmt.Sprintf("%s.NextMessageParams with account status %q: %s", recv, s, strings.Join(why, "; ")))
 		}
 		if dt != "" {
@@ -654,28 +657,48 @@ func (c *Ctx) sendPipeline() {
 		}
 		c.check(okSend && okMar, R, "the payload sent is the BoC of the marshalled external message", f.Pos(), "SendMessage(ToBocCustom(Marshal(extMsg)))", "RawSendV2 no longer sends the serialised external message it built")
 		// confirmation: a nil error after the send is returned only (a) when no wait was asked, or (b) on newSeqno > seqno
-		noWait, _ := passingEdges(f, requiredCheck{src: func(v ssa.Value) bool {
-			b, ok := v.(*ssa.BinOp)
-			return ok && b.Op.String() == "==" && strings.Join(leaves(b.X), ",") == "#6"
-		}, kind: "bool"})
-		adv, _ := passingEdges(f, requiredCheck{src: func(v ssa.Value) bool {
-			b, ok := v.(*ssa.BinOp)
-			if !ok || b.Op.String() != ">" {
-				return false
-			}
-			c2 := callOf(b.X)
-			if ex, ok := b.X.(*ssa.Extract); ok {
+		// (read off the branch facts that hold at each success exit, so the spelling of the two tests - operand
+		// order, == / != with swapped branches, a merged `err == nil && new > old` - does not matter)
+		isNew := func(v ssa.Value) bool {
+			c2 := callOf(v)
+			if ex, ok := v.(*ssa.Extract); ok {
 				c2 = callOf(ex.Tuple)
 			}
-			return c2 != nil && c2.Call.IsInvoke() && c2.Call.Method.Name() == "GetSeqno" && strings.Join(leaves(b.Y), ",") == "#2"
-		}, kind: "bool"})
-		okC := len(noWait) == 1 && len(adv) == 1
+			return c2 != nil && c2.Call.IsInvoke() && c2.Call.Method.Name() == "GetSeqno"
+		}
+		isOld := func(v ssa.Value) bool { return strings.Join(leaves(v), ",") == "#2" }
+		justifies := func(ft fact) bool {
+			bo, ok := ft.Cond.(*ssa.BinOp)
+			if !ok {
+				return false
+			}
+			// no wait was asked: waitingConfirmation == 0
+			for _, pr := range [][2]ssa.Value{{bo.X, bo.Y}, {bo.Y, bo.X}} {
+				if k, isK := constInt(pr[1]); isK && k == 0 && strings.Join(leaves(pr[0]), ",") == "#6" {
+					if (bo.Op == token.EQL && ft.Truth) || (bo.Op == token.NEQ && !ft.Truth) {
+						return true
+					}
+				}
+			}
+			// the seqno advanced: new > old
+			op := bo.Op
+			x, y := bo.X, bo.Y
+			if isOld(x) && isNew(y) {
+				x, y = y, x
+				op = map[token.Token]token.Token{token.LSS: token.GTR, token.GTR: token.LSS, token.LEQ: token.GEQ, token.GEQ: token.LEQ}[op]
+			}
+			if isNew(x) && isOld(y) {
+				return (op == token.GTR && ft.Truth) || (op == token.LEQ && !ft.Truth)
+			}
+			return false
+		}
+		okC := true
 		n := 0
 		for _, sp := range successPoints(f, 1) {
 			n++
 			d := false
-			for _, e := range append(append([]edge{}, noWait...), adv...) {
-				if edgeDominates(f, e, sp.Block) {
+			for _, ft := range factsAt(f, sp.Block) {
+				if justifies(ft) {
 					d = true
 				}
 			}
